@@ -33,6 +33,7 @@ import (
 	"sync"
 	"sync/atomic"
 	"time"
+	"unsafe"
 
 	simplejson "github.com/bitly/go-simplejson"
 	"github.com/ozontech/file.d/fd"
@@ -273,6 +274,9 @@ type hOutput struct {
 	res    *childOut
 	buf    []byte
 	keep   bool
+	// safe: dry-run every Encode with a step budget first (safeenc.go); an
+	// encode that would not terminate is an invalid output, not a hung child
+	safe bool
 }
 
 func (o *hOutput) Start(_ pipeline.AnyConfig, p *pipeline.OutputPluginParams) { o.ctl = p.Controller }
@@ -291,6 +295,12 @@ func (o *hOutput) Out(e *pipeline.Event) {
 			idx, kind = int(curHead.Load()), "child"
 			o.res.Children++
 			mark(idx, ocChildren)
+		}
+		if o.safe && !encodeTerminates((*ijNode)(unsafe.Pointer(e.Root.Node)), encodeBudget) {
+			o.res.Outputs++
+			o.invalid(idx, "immediate", kind, fmt.Errorf("the encode of the event does not terminate (cycle in the node chain)"), []byte(encodeRunaway))
+			o.ctl.Commit(e)
+			return
 		}
 		o.buf = e.Root.Encode(o.buf[:0])
 		enc := append([]byte(nil), o.buf...)
@@ -322,6 +332,9 @@ func (o *hOutput) invalid(idx int, phase, kind string, err error, enc []byte) {
 	mark(idx, ocInvalid)
 	if len(o.res.Invalid) < 40 {
 		token := badToken(enc, err.Error())
+		if string(enc) == encodeRunaway {
+			token = "encode-does-not-terminate"
+		}
 		if len(enc) > 2048 {
 			enc = enc[:2048]
 		}
@@ -333,7 +346,10 @@ func (o *hOutput) invalid(idx int, phase, kind string, err error, enc []byte) {
 
 func (o *hOutput) flushLocked() {
 	for _, p := range o.pend {
-		if p.kind != "parent" {
+		if p.kind != "parent" && o.safe && !encodeTerminates((*ijNode)(unsafe.Pointer(p.ev.Root.Node)), encodeBudget) {
+			o.res.LateDiff++
+			o.invalid(p.idx, "late", p.kind, fmt.Errorf("the encode of the event does not terminate (cycle in the node chain)"), []byte(encodeRunaway))
+		} else if p.kind != "parent" {
 			// what a batching output would send: the encoding at flush time
 			o.buf = p.ev.Root.Encode(o.buf[:0])
 			if !bytes.Equal(o.buf, p.enc) {
@@ -579,10 +595,11 @@ func buildPipeline(in *childIn, single bool, output pipeline.AnyPlugin) (p *pipe
 		evTimeout = time.Duration(s.EventTimeoutMs) * time.Millisecond
 	}
 	settings := &pipeline.Settings{
-		Capacity:                s.Capacity,
-		MaintenanceInterval:     5 * time.Second,
-		EventTimeout:            evTimeout,
-		Antispam:                pipeline.AntispamSettings{Threshold: pipeline.DefaultAntispamThreshold},
+		Capacity:            s.Capacity,
+		MaintenanceInterval: 5 * time.Second,
+		EventTimeout:        evTimeout,
+		// the production default interval: with 0 the pipeline's antispam maintenance goroutine spins on a core
+		Antispam:                pipeline.AntispamSettings{Threshold: pipeline.DefaultAntispamThreshold, MaintenanceInterval: pipeline.DefaultMaintenanceInterval},
 		AvgEventSize:            s.AvgEventSize,
 		MaxEventSize:            s.MaxEventSize,
 		CutOffEventByLimit:      s.CutOffEventByLimit,
